@@ -550,14 +550,15 @@ PROPS = {
               "write wins). Totality: c10_get_total (GetNode never panics, no hypothesis), c10_no_panic (SetNode with a non-JSON payload panics only on a NaN decimal64 key string; c10_panic_nan_witness).",
         note="Trusted: Coq kernel; hand transcription of ytypes/node.go (Tree/Node.v) tied by the 'nodeops' stream; Go maps as sorted association lists; float/key oracle tables. Leaf-level claims are "
              "about structural paths (sub_at / MergeJson.leaf_at), not Leaves.leaves.",
-        coq_files=["Tree/Node", "Tree/KeyCodec", "Tree/Leaves", "Tree/GnmiStatements", "Tree/NodeExamples", "Tree/NodeFrameProofs", "Tree/NodeProofs", "Tree/NodeTotalProofs", "Corr/GnmiCorr"],
+        coq_files=["Tree/Node", "Tree/KeyCodec", "Tree/Leaves", "Tree/GnmiStatements", "Tree/NodeExamples", "Tree/NodeFrameProofs", "Tree/NodeProofs", "Tree/NodeTotalProofs", "Tree/SetReqBridgeProofs", "Corr/GnmiCorr"],
         streams=[dict(name="nodeops", n=N(900, 8000))],
         signatures=["setnode/", "getnode/", "gnmi/empty-type", "union/wrapper-binary-unsettable", "panic"],
         trusted=["schema translator and tree printer (tree.go)", "float and key oracle tables produced by the harness"],
         partial="Guards: swfb (schema), root_okb (tree: struct order, kinds, key leaves = map key, keys read back from their strings, canonical entry order), addr_of (complete canonical keys, "
                 "non-shadow tags, target not a key leaf), s_shadow = s_ignore_extra = false. The candidate GnmiStatements.c10_get_after_set is refuted (c10_refuted_noncanonical_key: key \"07\"; the "
-                "reported Path has sorted keys); c10_refuted_failed_set_mutates (failed SetNode with InitMissingElements leaves entries behind). Not proved: the link structural path <-> Leaves.leaves "
-                "paths, the reported gn_path (existential), success conditions (c10_set_succeeds), JSON payloads on containers, PreferShadowPath.",
+                "reported Path has sorted keys); c10_refuted_failed_set_mutates (failed SetNode with InitMissingElements leaves entries behind). The leaf-level form on Leaves.leaves is "
+                "c10_leaves_after_set (leaves after = spec_update of leaves before, guards c13_inv2 / update_guardb: no ordered or unkeyed list on the path). Not proved: the reported gn_path "
+                "(existential), success conditions (c10_set_succeeds), JSON payloads on containers, PreferShadowPath.",
     ),
     "C12": dict(
         level="proof",
@@ -574,7 +575,8 @@ PROPS = {
         trusted=["schema translator and tree printer (tree.go)", "key oracle tables produced by the harness"],
         partial="Guards as for C10 (addr_of: complete canonical keys; non-canonical key strings make DeleteNode a silent no-op). c12_refuted_keyless_list_path: naming a non-empty list without keys is an "
                 "error. Deleting a key leaf (kl = true): removal and frame hold, the tree guard is lost (C16), so GetNode-after, idempotence and sequences require kl = false. PreferShadowPath only in "
-                "c12_delete_total and the example c12_shadow_path_noop. Link to Leaves.leaves not proved.",
+                "c12_delete_total and the example c12_shadow_path_noop. The leaf-level form on Leaves.leaves is c12_leaves_after_delete (leaves after = spec_delete of leaves before, guards c13_inv2 / "
+                "delete_guardb: no ordered or unkeyed list on the path).",
     ),
     "C11": dict(
         level="proof",
